@@ -142,3 +142,11 @@ func DocExamples(repo string) []Example {
 	}
 	return out
 }
+
+// RepoDir is the tree under check: /repo unless VERIF_REPO names a scratch copy.
+func RepoDir() string {
+	if d := os.Getenv("VERIF_REPO"); d != "" {
+		return d
+	}
+	return "/repo"
+}
